@@ -104,6 +104,9 @@ type State struct {
 	dead     bool
 	constructing bool
 	nforks   int
+	// objects whose state was re-read under a lock (other threads may have
+	// changed it): exempt from the function's frame check, per heap array
+	lockHavoc map[string][]Term
 }
 
 func (st *State) clone() *State {
@@ -113,6 +116,12 @@ func (st *State) clone() *State {
 		epoch: st.epoch, now: st.now, panicking: st.panicking,
 		oldHeap: st.oldHeap, oldEpoch: st.oldEpoch, oldNow: st.oldNow,
 		constructing: st.constructing, nforks: st.nforks,
+	}
+	if st.lockHavoc != nil {
+		n.lockHavoc = map[string][]Term{}
+		for k, v := range st.lockHavoc {
+			n.lockHavoc[k] = append([]Term(nil), v...)
+		}
 	}
 	for k, v := range st.cells {
 		n.cells[k] = v
